@@ -63,6 +63,7 @@ type c06SweepRT struct {
 	ncoll     int
 	puts      []c06Put
 	failedReq string // Gallina req of the request that was failed
+	idxReq    []int  // numbers of the mounts whose index was requested
 	reqLog    []string
 }
 
@@ -135,6 +136,7 @@ func (rt *c06SweepRT) RoundTrip(req *http.Request) (*http.Response, error) {
 				// a device mounted on several services is indexed through whichever mount the balancer
 				// happens to pick (map order): name the request by the device's first mount
 				id = fmt.Sprintf("QIndex %d", rt.canon(m.dev, m.num))
+				rt.idxReq = append(rt.idxReq, m.num)
 			}
 		}
 	case srv >= 0 && req.Method == "PUT" && (path == "/trash" || path == "/pull"):
@@ -270,6 +272,9 @@ func TestVerifC06Sweep(t *testing.T) {
 			if conf%3 == 0 || rr.Chance(1, 3) {
 				roSrv = 1 + rr.Intn(nsrv-1)
 			}
+			if conf%3 == 2 {
+				roSrv = 1 // configurations 2, 5, 8, ...: its device id is blank, like the read-write mount of service 2
+			}
 			for i := 0; i < nsrv; i++ {
 				nm := 1 + rr.Intn(2)
 				if i == roSrv {
@@ -294,6 +299,10 @@ func TestVerifC06Sweep(t *testing.T) {
 						m.ro = true
 					case j == 0 && i > 1 && (rr.Chance(1, 6) || (conf%3 == 2 && i == 2)):
 						m.dev = "" // blank device id (always on service 2 in configurations 2, 5, 8, ...)
+					}
+					// blank device ids also on read-only mounts: a blank id never identifies two mounts as one device
+					if j == 0 && m.dev != "" && ((conf%3 == 2 && i == roSrv) || (i > 0 && rr.Chance(1, 8))) {
+						m.dev = ""
 					}
 					switch rr.Intn(6) {
 					case 0:
@@ -411,7 +420,21 @@ func TestVerifC06Sweep(t *testing.T) {
 			if rt.failedReq != "" {
 				failed = "(Some (" + rt.failedReq + "))"
 			}
-			term := fmt.Sprintf("CSweep %s %s %s %v", cfg, failed, gList(puts), err == nil)
+			devNum := map[string]int{"": 0}
+			var mts, oidx []string
+			for i, ms := range rt.mounts {
+				for _, m := range ms {
+					if _, ok := devNum[m.dev]; !ok {
+						devNum[m.dev] = len(devNum)
+					}
+					mts = append(mts, fmt.Sprintf("MM %d %d %d %v", m.num, i, devNum[m.dev], m.ro))
+				}
+			}
+			sort.Ints(rt.idxReq)
+			for _, x := range rt.idxReq {
+				oidx = append(oidx, fmt.Sprint(x))
+			}
+			term := fmt.Sprintf("CSweep %s %s %s %s %s %v", cfg, gList(mts), failed, gList(oidx), gList(puts), err == nil)
 			desc := map[string]interface{}{"index": idx, "configuration": conf, "services": nsrv, "commit_pulls": commitPulls, "commit_trash": commitTrash,
 				"fail_request_number": failAt, "failed_request": rt.failedReq, "index_cut_short": cut, "failure_mode": rt.failMode, "requests": rt.nreq, "puts": fmt.Sprint(rt.puts), "run_returned_nil": err == nil}
 			var md []string
@@ -425,6 +448,16 @@ func TestVerifC06Sweep(t *testing.T) {
 			tags := []string{fmt.Sprintf("commit=%v/%v", commitPulls, commitTrash)}
 			if hasRO {
 				tags = append(tags, "has-read-only-mount")
+			}
+			blankRO, blankRW := false, false
+			for _, ms := range rt.mounts {
+				for _, m := range ms {
+					blankRO = blankRO || (m.dev == "" && m.ro)
+					blankRW = blankRW || (m.dev == "" && !m.ro)
+				}
+			}
+			if blankRO && blankRW {
+				tags = append(tags, "blank-device-read-only-and-read-write")
 			}
 			if rt.failedReq != "" && strings.HasPrefix(rt.failedReq, "QIndex ") {
 				for _, ms := range rt.mounts {
